@@ -286,7 +286,7 @@ def h_refusal(S, B):
         escaped = x
     S.cover("refusal:" + first)
     S.known("C05-refusal-reply-failure-ends-the-accept-loop",
-            fault != "reads-reply")
+            fault != "reads-reply", checks=["accept-loop-survives-a-refused-client"])
     S.check("accept-loop-survives-a-refused-client", escaped is None)
     S.check("nothing-executed-for-refused-client", LOG == [])
     if escaped is None:
